@@ -110,6 +110,19 @@ impl Feig {
         Ok(this)
     }
 
+    /// Read-only view of the client state (verification only): the open
+    /// transactions sorted by token and whether a connection is held.
+    #[cfg(feature = "zvt_verif")]
+    pub fn verif_snapshot(&self) -> (Vec<(String, usize)>, bool) {
+        let mut open: Vec<_> = self
+            .transactions
+            .iter()
+            .map(|(k, v)| (k.clone(), *v))
+            .collect();
+        open.sort();
+        (open, self.socket.verif_connected())
+    }
+
     /// Returns the system information of the feig-terminal.
     async fn get_system_info(
         &mut self,
